@@ -19,6 +19,7 @@ import (
 	"sync"
 	"time"
 
+	"github.com/gobwas/ws"
 	"golang.org/x/net/http2"
 	"golang.org/x/net/http2/h2c"
 	"google.golang.org/grpc"
@@ -446,4 +447,36 @@ func (c fragConn) Read(p []byte) (int, error) {
 // Frag returns a listener wrapper for StartH2C / StartLarking.
 func Frag(max int) func(net.Listener) net.Listener {
 	return func(l net.Listener) net.Listener { return FragListener{l, max} }
+}
+
+// ------------------------------------------------------------ websocket
+
+type wsConn struct {
+	net.Conn
+	r io.Reader
+}
+
+func (c wsConn) Read(p []byte) (int, error) { return c.r.Read(p) }
+
+// WSDial opens a client WebSocket connection. gobwas/ws.Dial may have read
+// the first server frames together with the handshake response into a
+// bufio.Reader; the returned conn drains that buffer first (ignoring it makes
+// the client parse garbage: "use of reserved op code").
+func WSDial(ctx context.Context, urlStr string, hdr http.Header) (net.Conn, error) {
+	d := ws.Dialer{}
+	if hdr != nil {
+		d.Header = ws.HandshakeHeaderHTTP(hdr)
+	}
+	conn, br, _, err := d.Dial(ctx, urlStr)
+	if err != nil {
+		return nil, err
+	}
+	if br == nil {
+		return conn, nil
+	}
+	n := br.Buffered()
+	buf := make([]byte, n)
+	io.ReadFull(br, buf)
+	ws.PutReader(br)
+	return wsConn{Conn: conn, r: io.MultiReader(bytes.NewReader(buf), conn)}, nil
 }
